@@ -465,6 +465,9 @@ def _run(ck, tier, root, static_broken):
                    "load_paths": [unhex(x) for x in m["load_paths"].split(",")] if m["load_paths"] != "-" else []}
         if options["style"] == "expanded":
             del options["style"]
+        # reference = one `Options::load_path` call per -I, in the order given (the documented meaning of the flag);
+        # the binary itself goes through `Options::load_paths`, so a defect in either spelling shows as a difference
+        options["load_paths_api"] = "singular"
         inp_path = opt_dec(m["input"])
         if m["kind"] == "file":
             job = {"mode": "compile", "entry": inp_path, "fs": "std", "logger": "std", "options": options}
